@@ -355,13 +355,27 @@ func (w *twkbWriter) writeMultiPoint(mp MultiPoint) error {
 	w.writeInitialHeaders()
 
 	numPoints := mp.NumPoints()
-	w.writeUnsignedVarint(uint64(numPoints))
-
-	if err := w.writeIDList(numPoints); err != nil {
-		return err
+	if w.hasIDs && numPoints != len(w.idList) {
+		return fmt.Errorf("unexpected ID list length %d, expected %d", len(w.idList), numPoints)
 	}
 
+	// TWKB has no representation for an empty Point inside a non-empty
+	// MultiPoint, so empty Points (and their IDs) are omitted.
+	var nonEmpty []int
 	for i := 0; i < numPoints; i++ {
+		if !mp.PointN(i).IsEmpty() {
+			nonEmpty = append(nonEmpty, i)
+		}
+	}
+	w.writeUnsignedVarint(uint64(len(nonEmpty)))
+
+	if w.hasIDs {
+		for _, i := range nonEmpty {
+			w.writeSignedVarint(w.idList[i])
+		}
+	}
+
+	for _, i := range nonEmpty {
 		pt := mp.PointN(i)
 		w.writePointCoords(pt)
 	}
